@@ -410,3 +410,156 @@ def gen_dmrs(rng, max_nodes=6):
         top = rng.choice(ids)
     index = rng.choice(ids) if ids and rng.random() < 0.6 else None
     return {"top": top, "index": index, "nodes": nodes, "links": links}
+
+
+# ---------------------------------------------------------------- large dense structures (round 2)
+# Sizes well beyond the small-space generators: the breadth-first search, the
+# component loop and the memoised descent are only stressed (agenda growth,
+# duplicates in the agenda, deep recursion) on big, densely linked inputs.
+
+def _ep(pred, lbl, args):
+    return {"pred": pred, "label": lbl, "args": args, "carg": None, "lnk": None, "surface": None, "base": None}
+
+
+def gen_mrs_clique(n, rng=None, drop=0.0, pendants=True, shared_label=True):
+    """`n` predications taking each other as arguments (a clique; with `drop` > 0 a
+    near-clique: each mutual argument is left out with that probability, but a
+    spanning ring is always kept), sharing one label (or one label each), each with a
+    private modifier predication in its own scope.  Connected by construction."""
+    ivs = [["e", 100 + i] for i in range(n)]
+    rels = []
+    for i in range(n):
+        args = [["ARG0", ivs[i]]]
+        k = 0
+        for j in range(n):
+            if j == i:
+                continue
+            ring = (j == (i + 1) % n)
+            if ring or drop <= 0 or rng is None or rng.random() >= drop:
+                k += 1
+                args.append(["ARG%d" % k, ivs[j]])
+        rels.append(_ep("_c%d_v_1" % i, ["h", 1] if shared_label else ["h", 1 + i], args))
+    hcons = [[["h", 0], "qeq", ["h", 1]]]
+    if pendants:
+        for i in range(n):
+            rels.append(_ep("_m%d_a_1" % i, ["h", 1000 + i], [["ARG0", ["e", 500 + i]], ["ARG1", ivs[i]]]))
+    if rng is not None and rng.random() < 0.5:
+        rng.shuffle(rels)
+    return {"top": ["h", 0], "index": ivs[0], "rels": rels, "hcons": hcons, "icons": [], "vars": []}
+
+
+def gen_mrs_star(fanout, rng=None, scopal=False):
+    """one hub taking `fanout` leaves as arguments (non-scopal, or each through its own
+    qeq-ed hole), every leaf in its own scope."""
+    hub_args = [["ARG0", ["e", 100]]]
+    rels = []
+    hcons = [[["h", 0], "qeq", ["h", 1]]]
+    for i in range(fanout):
+        lbl = ["h", 10 + i]
+        iv = ["x", 200 + i]
+        rels.append(_ep("_leaf%d_n_1" % i, lbl, [["ARG0", iv]]))
+        if scopal:
+            hole = ["h", 2000 + i]
+            hcons.append([hole, "qeq", lbl])
+            hub_args.append(["ARG%d" % (i + 1), hole])
+        else:
+            hub_args.append(["ARG%d" % (i + 1), iv])
+    rels.insert(0 if rng is None else rng.randrange(len(rels) + 1), _ep("_hub_v_1", ["h", 1], hub_args))
+    return {"top": ["h", 0], "index": ["e", 100], "rels": rels, "hcons": hcons, "icons": [], "vars": []}
+
+
+def gen_mrs_chain(depth, rng=None, modifiers=True, close_cycle=False):
+    """a linear scopal chain of `depth` predications (alternating qeq-ed holes and direct
+    label arguments), optionally each with a non-scopal modifier in the same scope;
+    `close_cycle` lets the last one scope over the first (cyclic handle constraints).
+    Exactly one scopal argument per level, so descendant lists stay linear."""
+    rels = []
+    hcons = [[["h", 0], "qeq", ["h", 1]]]
+    for i in range(depth):
+        lbl = ["h", 1 + i]
+        args = [["ARG0", ["e", 100 + i]]]
+        nxt = None
+        if i + 1 < depth:
+            nxt = ["h", 2 + i]
+        elif close_cycle:
+            nxt = ["h", 1]
+        if nxt is not None:
+            if i % 2 == 0:
+                hole = ["h", 3000 + i]
+                hcons.append([hole, "qeq", nxt])
+                args.append(["ARG1", hole])
+            else:
+                args.append(["ARG1", nxt])
+        rels.append(_ep("_s%d_v_1" % i, lbl, args))
+        if modifiers and i % 3 == 0:
+            rels.append(_ep("_mod%d_a_1" % i, lbl, [["ARG0", ["e", 600 + i]], ["ARG1", ["e", 100 + i]]]))
+    if rng is not None and rng.random() < 0.3:
+        rng.shuffle(rels)
+    return {"top": ["h", 0], "index": ["e", 100], "rels": rels, "hcons": hcons, "icons": [], "vars": []}
+
+
+def gen_mrs_labels(k, pendants=True):
+    """one predication per label: `k` core labels h1..hk and, with `pendants`, one pendant
+    label h(100+i) per core label (to be equated by gen_leqs_dense)."""
+    rels = []
+    for i in range(k):
+        rels.append(_ep("_core%d_v_1" % i, ["h", 1 + i], [["ARG0", ["e", 300 + i]]]))
+    if pendants:
+        for i in range(k):
+            rels.append(_ep("_pend%d_v_1" % i, ["h", 101 + i], [["ARG0", ["e", 700 + i]]]))
+    return {"top": ["h", 0], "index": None, "rels": rels, "hcons": [[["h", 0], "qeq", ["h", 1]]],
+            "icons": [], "vars": []}
+
+
+def dense_pairs(k, kind, rng=None):
+    """index pairs over range(k): complete graph, chain with chords, star, ring, or two cliques"""
+    if kind == "complete":
+        prs = [(i, j) for i in range(k) for j in range(i + 1, k)]
+    elif kind == "chords":
+        prs = [(i, i + 1) for i in range(k - 1)] + [(i, i + 3) for i in range(k - 3)] + \
+              [(i, i + 7) for i in range(0, k - 7, 2)]
+    elif kind == "star":
+        prs = [(0, i) for i in range(1, k)]
+    elif kind == "ring":
+        prs = [(i, (i + 1) % k) for i in range(k)]
+    elif kind == "two":
+        h = k // 2
+        prs = [(i, j) for i in range(h) for j in range(i + 1, h)] + \
+              [(i, j) for i in range(h, k) for j in range(i + 1, k)]
+    else:
+        raise ValueError(kind)
+    if rng is not None:
+        prs = [(b, a) if rng.random() < 0.5 else (a, b) for a, b in prs]
+        rng.shuffle(prs)
+    return prs
+
+
+def gen_leqs_dense(k, kind, rng=None, pendants=True):
+    """label equalities for gen_mrs_labels(k): `kind` over the core labels plus
+    (core_i, pendant_i) for every i"""
+    out = [[["h", 1 + a], ["h", 1 + b]] for a, b in dense_pairs(k, kind, rng)]
+    if pendants:
+        pend = [[["h", 1 + i], ["h", 101 + i]] for i in range(k)]
+        if rng is not None:
+            rng.shuffle(pend)
+            cut = rng.randrange(len(out) + 1)
+            out = out[:cut] + pend + out[cut:]
+        else:
+            out = out + pend
+    return out
+
+
+def gen_dmrs_dense(k, kind, rng=None, pendants=True):
+    """`k` core nodes with EQ links of the given shape, one pendant node per core node
+    attached by an EQ link; many nodes compare equal; top is a pendant node."""
+    ids = [10000 + i for i in range(k)]
+    pids = [20000 + i for i in range(k)] if pendants else []
+    nodes = [{"id": i, "pred": NODE_PREDS[(i % 3)], "type": "e", "props": [], "carg": None,
+              "lnk": None, "surface": None, "base": None} for i in ids + pids]
+    links = [[ids[a], ids[b], "ARG1", "EQ"] for a, b in dense_pairs(k, kind, rng)]
+    links += [[p, c, "ARG1", "EQ"] for p, c in zip(pids, ids)]
+    if rng is not None:
+        rng.shuffle(links)
+        rng.shuffle(nodes)
+    top = (pids or ids)[-1]
+    return {"top": top, "index": ids[0], "nodes": nodes, "links": links}
